@@ -322,7 +322,7 @@ def seismic_file_producer_2d(queue, seismicfile, blockshape, store_headers,
         io_thread_func_2d(blockshape, store_headers, headers_dict, trace_group_id,
                           traces_to_read, seismic_buffer, seismicfile, trace_length)
 
-        hash_object.update(seismic_buffer[0:n_traces, 0:trace_length].copy())
+        hash_object.update(seismic_buffer[0:traces_to_read, 0:trace_length].copy())
 
         if blockshape[1] == 4:
             queue.put(seismic_buffer)
